@@ -21,6 +21,17 @@ CLAIMS = {
              "(N<=5 quick, N=6 thorough) and every completion order of the three executor flavours, each combination "
              "is called exactly once and its result sits in its own slot.  'Confirmed over all paths' per condition; "
              "counterexamples are replayed on the real random module before being reported."),
+    "C02": dict(
+        engine="A", category="model_checking", design_ref="DESIGN.md 5/C02",
+        technique="CrossHair symbolic execution of the real combo_runner(cases=...) / case_runner / "
+                  "combo_runner_core / nan_like_result code; the ordered selection of cases, result kind, spelling, "
+                  "sub-grid, shuffle permutation and payload are solver variables",
+        text="Every ordered selection of 1-3 (4 thorough) distinct cases from a 6-point pool, five result kinds, "
+             "dict/tuple spelling, nested/flat, combo_runner and case_runner entry points, sub-grids on a further "
+             "argument, every shuffle permutation of <=4 cases: the function is called exactly once per requested "
+             "setting and never otherwise, the grid spans the sorted per-argument union, requested slots hold their "
+             "payload, all others the correctly shaped placeholder; an argument in both cases and combos is rejected "
+             "before any call."),
     "C03": dict(
         engine="A", category="model_checking", design_ref="DESIGN.md 5/C03",
         technique="CrossHair symbolic execution of the real combo_runner_to_ds / case_runner_to_ds / results_to_ds / "
